@@ -11,7 +11,8 @@ Per run:
      = map of scalar calls; mismatched lengths rejected);
   4. one kernel-checked certificate per case and quantity: the statement's criterion
      |out - Hogg| <= 1.5 |GL_R - Hogg| + 1e-12 |out| with the genuine integral in Hogg's definition
-     (Cert.cert: verified outward-rounded interval evaluation of the R model, closed by vm_compute);
+     (Cert.cert: verified outward-rounded interval evaluation of the R model, closed by vm_compute; GL_R - Hogg is the
+     truncation error of the rule by Properties.C11_chain_is_Hogg_up_to_quadrature);
   5. for concordance-like cosmologies the documented accuracy (1e-6 at z<=1, 1e-3 at z<=5) against
      kernel-checked enclosures of the integral (Interval's `integral` tactic over Coquelicot RInt).
 """
@@ -820,7 +821,8 @@ def run_accuracy(ctx, results):
     failed = [i for i, (ok, _m) in enumerate(out) if not ok]
     single_of = {}
     if failed:
-        flat = [(i, q, st) for i in failed for (q, st) in owner[i][2]]
+        # at most 6 lemmas are attributed (a broken tree fails them all; on a correct tree none fails)
+        flat = [(i, q, st) for i in failed[:6] for (q, st) in owner[i][2]]
         single = core.coq_lemmas(os.path.join(ctx.work, "acc1"), PRE_ACC + ACC_TAC,
                                  [(st, "c11_unf; c11_ints; c11_fin.") for _i, _q, st in flat], shard=4, tag="acc1", timeout=900)
         for (i, q, _st), (k, m) in zip(flat, single):
@@ -828,7 +830,7 @@ def run_accuracy(ctx, results):
     nok, reported = 0, set()
     for i, ((case, res, conj), (ok, msg)) in enumerate(zip(owner, out)):
         bad, msgs = [], []
-        if not ok:
+        if not ok and i in single_of:
             bad = [q for q, k, _m in single_of[i] if not k]
             msgs = [m for _q, k, m in single_of[i] if not k]
             ok = not bad
@@ -928,8 +930,9 @@ TRUSTED = [
     "BigZ arithmetic the Uint63 specification axioms and PrimInt63 primitives; the per-case documented-accuracy lemmas "
     "(integral/interval tactics with native floats) additionally the FloatAxioms.* specifications of PrimFloat",
     "hand-written models C11/Model.v (R, discrete) and C11/ModelF.v (binary64) of cosmolib.c / cosmolib_pywrap.c / cosmology.py; "
-    "tied to the working tree by the bit-exact correspondence run and by Gen.v (NPTS, VNPTS, constants, defaults) regenerated from "
-    "the sources on every run by harness/props/c11_translate.py (regex / ast, fail-closed)",
+    "tied to the working tree by the bit-exact correspondence run and by Gen.v regenerated from the sources on every run by "
+    "harness/props/c11_translate.py (regex / ast, fail-closed): NPTS, VNPTS, constants, defaults, and Cosmo.extract_parms / copy / "
+    "_pars translated statement by statement, each proved equal to the hand model by a per-run lemma",
     "measured, not modelled: libm cos (Newton start values of gauleg), sinh, sin (curved universes) enter the binary64 model as oracle "
     "tables measured through CPython's math module on the same libm; numpy.log10 of distmod only through the R certificate; "
     "IEEE rounding of the formula chain is not bounded a priori but certified per sampled case (|out - R model| <= 1e-12 |out|)",
